@@ -32,9 +32,17 @@ RULE = ("for nbits in {1,2,4} x order in {big,little}: (a) every byte value 0..2
 BOUNDSCHECK_TIERS = ("thorough",)
 
 
+SUITE_CONTRACTS = True   # thorough tier also runs the repository's own tests under vlib/suite_plugin.py
+_SUITE_REQUIRED = ['suite:pack_checks', 'suite:unpack_checks']
+
+
 def REQUIRED(tier):
+    return _required(tier) + (_SUITE_REQUIRED if tier == "thorough" else [])
+
+
+def _required(tier):
     return ["unpack_checks", "pack_checks", "roundtrip_checks", "caller_buffer_checks", "canary_audits", "rejections_checked",
-            "default_order_file_roundtrips", "spot_checks_large", "spelling:alias"]
+            "default_order_file_roundtrips", "spot_checks_large", "spelling:alias", "large_order_switches_in_process"]
 
 
 def EXHAUSTIVE(tier):
@@ -210,7 +218,10 @@ def run_case(case, ctx):
         nbits, order = case["nbits"], case["order"]
         per = 8 // nbits
         rng = np.random.default_rng([case["seed"], nbits, 99, order == "big"])
-        for n in (1024, 4097, 65536, 17, 8 * 16 + 8, 8 * 17):
+        other = "little" if order == "big" else "big"
+        # both bit orders alternate inside one process: a result must not depend on which order was used before at this depth/size
+        plan = [(n, order) for n in (1024, 4097, 65536, 17, 8 * 16 + 8, 8 * 17)] + [(n, o) for n in (4096, 20000, 1 << 20) for o in (other, order, other)]
+        for n, order in plan:
             ctx.evaluated()
             raw = rng.integers(0, 256, size=n).astype(np.uint8)
             want = sigfile.unpack_bits(raw, nbits, order)
@@ -218,6 +229,8 @@ def run_case(case, ctx):
             out = bits.unpack(fr.like(raw), nbits, bitorder=_spelling(order, n))
             back = bits.pack(fr.like(want), nbits, bitorder=_spelling(order, n + 1))
             ctx.count("spot_checks_large")
+            if order != case["order"]:
+                ctx.count("large_order_switches_in_process")
             if not np.array_equal(out, want) or not np.array_equal(back, raw):
                 ctx.violation(f"large-array:{nbits}bit:{order}", f"random {n}-byte array: unpack/pack differ from definition", dict(case, n=n))
             _audit(ctx, fr, case, "large")
